@@ -109,7 +109,21 @@ def run_case(case, with_bad=True):
         seq.append(('b', bad))
     seq += [('g', good(100 + i, as4)) for i in range(case['post'])]
     per_msg = []
+    mode_known = True
+    first_post = case['pre'] + (1 if with_bad else 0)
     for kind, data in seq:
+        if with_bad and per_msg and per_msg[-1][0] == 'b' and case['type'] == rc.OPEN and state == 'OPENSENT' and sim.state != 'OPENSENT':
+            mode_known = False      # the hostile message was an OPEN the agent accepted: the session is what THAT OPEN negotiated
+        if kind == 'g' and case.get('finish_handshake') and len(per_msg) == first_post and sim.state in ('OPENSENT', 'OPENCONFIRM') \
+                and c in ss.live_connectors(sim):
+            # the hostile message came during the handshake and the agent let it pass: the peer now completes the
+            # handshake on the same connection, and what follows is an ordinary Established session
+            if sim.state == 'OPENSENT':
+                r.peer_send(c, ss.peer_open(sim, hold=hold if hold else None, caps=caps, as4=as4))
+                r.settle(fire_due=True)
+            if sim.state == 'OPENCONFIRM':
+                r.peer_send(c, rc.keepalive())
+                r.settle(fire_due=True)
         n0 = len(sim.handler.calls)
         st0 = sim.state
         mark = sim.mark()
@@ -126,7 +140,7 @@ def run_case(case, with_bad=True):
             out.append(('escaped:%s@%s' % (e[2], e[3]), 'exception escaped %s: %s' % (e[1], e[4])))
         rep = reports(sim, n0)
         per_msg.append((kind, delivered, rep))
-        if kind == 'g' and delivered and st0 == 'ESTABLISHED' and data[18] == rc.UPDATE:
+        if kind == 'g' and delivered and st0 == 'ESTABLISHED' and data[18] == rc.UPDATE and mode_known:
             # a well-formed UPDATE in the session's AS mode is decoded as what it is, whatever came before
             want = [rc.prefix_text(pl, o) for _, pl, o in rc.split_prefixes(rc.split_update(data[19:])[2])]
             if [n for n, _ in rep] != ['update_received'] or list(rep[0][1].get('nlri') or []) != want:
@@ -289,12 +303,13 @@ def bad_message(draw):
 
 
 case_strategy = st.builds(
-    lambda state, pre, post, bad, as4, prior, hold, rib: dict(state=state, pre=pre, post=post, type=bad['type'], body=bad['body'],
-                                                              kind=bad['kind'], as4=as4, prior=prior, hold=hold, rib=rib),
+    lambda state, pre, post, bad, as4, prior, hold, rib, fin: dict(state=state, pre=pre, post=post, type=bad['type'], body=bad['body'],
+                                                                   kind=bad['kind'], as4=as4, prior=prior, hold=hold, rib=rib,
+                                                                   finish_handshake=fin),
     st.sampled_from(['ESTABLISHED', 'ESTABLISHED', 'ESTABLISHED', 'OPENCONFIRM', 'OPENSENT']),
     st.integers(0, 2), st.integers(1, 3), bad_message(), st.booleans(),
     st.one_of(st.just([]), st.just([]), st.lists(st.sampled_from(['close', 'marker', 'cease', 'silence', 'fewcaps-marker']), min_size=1, max_size=2)),
-    st.sampled_from([180, 180, 0, 0, 3, 90]), st.booleans())
+    st.sampled_from([180, 180, 0, 0, 3, 90]), st.booleans(), st.booleans())
 
 
 def shards(tier):
